@@ -324,9 +324,14 @@ def run(ctx):
                 res = {}
                 try:
                     if mode == 'seq':
-                        res = WriteLAS.convert_dir_or_file_to_las(din, dout, recurse, args[0], args[1], set(args[2]), args[3], args[4], traced)
+                        res = with_alarm(600, WriteLAS.convert_dir_or_file_to_las, din, dout, recurse, args[0], args[1], set(args[2]), args[3], args[4], traced)
                     else:
-                        res = WriteLAS.convert_dir_or_file_to_las_multiprocessing(din, dout, recurse, args[0], args[1], set(args[2]), args[3], args[4], jobs, traced)
+                        res = with_alarm(600, WriteLAS.convert_dir_or_file_to_las_multiprocessing, din, dout, recurse, args[0], args[1], set(args[2]), args[3], args[4],
+                                         jobs, traced)
+                except Watchdog:
+                    raised = 'the batch did not finish within 600 s'
+                    ctx.fail('%s %s run with %d jobs did not finish within 600 s (directory %d)' % (cname, mode, jobs, di), dict(dir=di, converter=cname, mode=mode, jobs=jobs),
+                             sig=dict(kind='batch-hang', converter=cname, mode=mode))
                 except Exception as e:
                     raised = '%s: %s' % (type(e).__name__, e)
                 for ch in multiprocessing.active_children():        # the driver never closes its pool
